@@ -258,21 +258,29 @@ def mk_importer(g):
 
 
 
-def mk_path_node(e):
+def mk_path_node_with_op(e):
+    return mk_path_node(e, True)
+
+
+def mk_path_node(e, with_op=False):
     """a node of the previous stage: token simple or spine operator, header node of its spine, last operator or none"""
     hdr = e.new(Node, {'id': e.int('hdr.id', 1), 'token': None, 'children': [], 'header_node': None}, None)
+    op = None
+    if with_op:
+        optok = e.new(SpineOperationToken, {'encoding': '*^', 'category': TokenCategory.SPINE_OPERATION, 'hidden': False, 'cancelled_at_stage': None}, None)
+        op = e.new(Node, {'id': e.int('op.id', 1), 'token': optok, 'children': [], 'header_node': hdr, 'last_spine_operator_node': None}, None)
     return e.new(Node, {'id': e.int('id', 1), 'token': e.new(SimpleToken, {'encoding': e.str_sym('tok.encoding'), 'category': e.enum('tok.category', TokenCategory),
                                                                            'hidden': False}, None),
                         'parent': None, 'children': e.mlist('children', lambda e2: e2.new(Node, {'id': e2.int('id')}, None)),
                         'stage': e.int('stage', 0), 'header_node': hdr, 'last_signature_nodes': e.new(SignatureNodes, {'nodes': {}}, None),
-                        'last_spine_operator_node': None}, None)
+                        'last_spine_operator_node': op}, None)
 
 
-def mk_full_importer(g):
+def mk_full_importer(g, with_ops=False):
     """an Importer in the middle of run(): arbitrary tree, arbitrary parents of the previous and of the next stage"""
     tree = mk_tree(g)
     doc = g.new(Document, {'tree': tree, 'measure_start_tree_stages': [], 'page_bounding_boxes': {}, 'header_stage': None}, None)
-    prev = g.mlist('prev', mk_path_node)
+    prev = g.mlist('prev', mk_path_node_with_op if with_ops else mk_path_node)
     nxt = g.mlist('next', mk_path_node)
     last = mk_tree_node(g, 'pre', mk_simple_like(g, 'MetacommentToken', 'pretok'))
     hrn = None if g.choice('header_row.none', [True, False]) else g.int('header_row', 1)
